@@ -76,6 +76,47 @@ pub fn scenarios(ctx: &Ctx) -> Vec<Case> {
             meta: json!({}),
         });
     }
+    // failure paths of extract and compile: the same I/O fault (or the same obstructing file-system
+    // state) under every key must give the same diagnostics and leave the same files behind -- a
+    // process id, an address or a hash order that leaks into a temp-file name or a message shows here
+    // (under a key the shim also derives getpid() from the key)
+    for item in ctx.corpus.binaries().filter(|b| b.cmd == "truanm" && b.id.starts_with("res/th12-embedded")) {
+        let path = item.path.clone().unwrap();
+        let base = Case {
+            property: String::new(),
+            oracle: String::new(),
+            name: format!("extract:{}", item.id),
+            inputs: vec![crate::case::Input::tree("map/"), crate::case::Input::corpus(&path)],
+            steps: vec![crate::case::Step::new(vec!["truanm".into(), "extract".into(), "-g".into(), item.game.clone(), path.clone(), "-o".into(), "ext".into()])],
+            meta: json!({}),
+        };
+        let plans: Vec<&str> = if quick { vec!["full=0", "full=700", "at=4:EIO", "at=9:EIO", "at=3:EACCES"] } else { vec!["full=0", "full=1", "full=700", "full=5000", "full=9000", "full=20000", "at=2:EIO", "at=3:EACCES", "at=4:EIO", "at=6:EIO", "at=9:EIO", "at=12:ENOSPC", "at=15:EIO", "at=20:EIO"] };
+        for plan in plans {
+            let mut c = base.clone();
+            c.steps[0].plan = plan.to_string();
+            c.name = format!("{} [fault {}]", base.name, plan);
+            push(c);
+        }
+        for (tag, extra) in [
+            ("dir-where-image-goes", vec![crate::case::Input::text("ext/lmao.png/.keep", ""), crate::case::Input::text("ext/subdir/hi-32x16.png/.keep", "")]),
+            ("file-where-dir-goes", vec![crate::case::Input::text("ext/subdir", "i am a file")]),
+            ("dangling-link", vec![crate::case::Input::symlink("ext/lmao.png", "nowhere/at/all.png")]),
+        ] {
+            let mut c = base.clone();
+            c.inputs.extend(extra);
+            c.name = format!("{} [state {}]", base.name, tag);
+            push(c);
+        }
+    }
+    for item in scen::source_items(&ctx.corpus).into_iter().filter(|i| i.id.starts_with("extra/big") || i.id.starts_with("extra/mission") || i.id.contains("compile_simple")) {
+        let base = scen::compile_case(item, true);
+        for plan in ["full=0", "full=100", "full=9000", "at=6:EIO", "at=10:EIO"] {
+            let mut c = base.clone();
+            c.steps[0].plan = plan.to_string();
+            c.name = format!("{} [fault {}]", base.name, plan);
+            push(c);
+        }
+    }
     // environment: TRUTH_MAP_PATH listing several directories, two of which hold a matching any.* map
     // (the first in listed order must win, whatever the hash order)
     for item in ctx.corpus.binaries().filter(|b| b.id.starts_with("b2b/")) {
